@@ -193,7 +193,8 @@ pub fn validate_batch(b: &RecordBatch) -> Result<(), String> {
         if c.len() != b.num_rows() {
             return Err(format!("column {} has {} rows, batch has {}", f.name(), c.len(), b.num_rows()));
         }
-        if !f.is_nullable() && c.logical_null_count() > 0 && !matches!(f.data_type(), DataType::Null) {
+        // (a union has no validity of its own and arrow-rs declares union fields non-nullable by convention)
+        if !f.is_nullable() && c.logical_null_count() > 0 && !matches!(f.data_type(), DataType::Null | DataType::Union(_, _)) {
             return Err(format!("non-nullable column {} contains nulls", f.name()));
         }
         c.to_data().validate_full().map_err(|e| format!("column {} invalid: {e}", f.name()))?;
@@ -201,11 +202,39 @@ pub fn validate_batch(b: &RecordBatch) -> Result<(), String> {
     Ok(())
 }
 
+/// Structural rendering of a type: names, types, nullability (and metadata) of every nested field, and
+/// nothing else (no dict_id / dict_is_ordered, which are not part of what a round trip promises).
+pub fn type_sig(dt: &DataType, with_metadata: bool) -> String {
+    fn field(f: &arrow_schema::Field, with_metadata: bool) -> String {
+        let mut s = format!("{}:{}:{}", f.name(), type_sig(f.data_type(), with_metadata), if f.is_nullable() { "null" } else { "nonnull" });
+        if with_metadata && !f.metadata().is_empty() {
+            let mut m: Vec<_> = f.metadata().iter().collect();
+            m.sort();
+            s.push_str(&format!("{m:?}"));
+        }
+        s
+    }
+    use DataType::*;
+    match dt {
+        List(f) => format!("List<{}>", field(f, with_metadata)),
+        LargeList(f) => format!("LargeList<{}>", field(f, with_metadata)),
+        ListView(f) => format!("ListView<{}>", field(f, with_metadata)),
+        LargeListView(f) => format!("LargeListView<{}>", field(f, with_metadata)),
+        FixedSizeList(f, n) => format!("FixedSizeList<{};{n}>", field(f, with_metadata)),
+        Map(f, sorted) => format!("Map<{};{sorted}>", field(f, with_metadata)),
+        Struct(fs) => format!("Struct<{}>", fs.iter().map(|f| field(f, with_metadata)).collect::<Vec<_>>().join(",")),
+        Union(ufs, mode) => format!("Union<{mode:?};{}>", ufs.iter().map(|(i, f)| format!("{i}={}", field(f, with_metadata))).collect::<Vec<_>>().join(",")),
+        Dictionary(k, v) => format!("Dictionary<{};{}>", type_sig(k, with_metadata), type_sig(v, with_metadata)),
+        RunEndEncoded(r, v) => format!("RunEndEncoded<{};{}>", field(r, with_metadata), field(v, with_metadata)),
+        other => format!("{other:?}"),
+    }
+}
+
 /// Canonical textual signature of a schema (names, types, nullability, metadata in sorted order).
 pub fn schema_sig(s: &Schema, with_metadata: bool) -> String {
     let mut out = String::new();
     for f in s.fields() {
-        out.push_str(&format!("{}:{:?}:{}", f.name(), f.data_type(), f.is_nullable()));
+        out.push_str(&format!("{}:{}:{}", f.name(), type_sig(f.data_type(), with_metadata), f.is_nullable()));
         if with_metadata {
             let mut m: Vec<_> = f.metadata().iter().collect();
             m.sort();
